@@ -82,6 +82,18 @@ func progForwardAll() []byte { // forwards its WHOLE balance (what it held plus 
 	a.push(1).op(opSSTORE).op(opSTOP)
 	return a.b
 }
+func progProbeRevert() []byte { // looks at BALANCE(calldata[0]) and reverts
+	a := &asm{}
+	a.push(0).op(opCALLDATALOAD).op(opBALANCE).op(opPOP).push(0).push(0).op(opREVERT)
+	return a.b
+}
+func progCallIgnoring() []byte { // calls contract calldata[0] with the 32-byte input calldata[1], ignores the outcome, stores 1 at slot 5
+	a := &asm{}
+	a.push(32).op(opCALLDATALOAD).push(0).op(opMSTORE)
+	a.push(0).push(0).push(32).push(0).push(0).push(0).op(opCALLDATALOAD).op(opGAS).op(opCALL).op(opPOP)
+	a.push(1).push(5).op(opSSTORE).op(opSTOP)
+	return a.b
+}
 func progReverter() []byte { // writes storage, then reverts with 32 bytes of data
 	a := &asm{}
 	a.push(7).push(0).op(opSSTORE).push(0xdead).push(0).op(opMSTORE).push(32).push(0).op(opREVERT)
